@@ -622,6 +622,12 @@ def oracle_c02(nodes, ev, outcomes, states_end, states_settled, stop, viol, rec,
             # 'Killed' after the stop is not the component's own exit
             h_n = hist.get(n) or []
             own = bool(h_n) and h_n[-1]['exit_seq'] is not None and h_n[-1]['exit_seq'] < ext[n]
+            # the 'finish' event is recorded when finish() is *called*; a caller that is descheduled before the call
+            # takes effect leaves the component free to reach its own verdict first: its own post-mortem check then
+            # still sees finishCalled == False
+            if not own and any(e[2] == 'postMortemCheck' and e[3] == n and e[0] > ext[n] and not (e[4] or {}).get('finishCalled')
+                               for e in ev):
+                own = True
             model[n] = {'component_shutdown', st} if own else {'component_shutdown'}
             continue
         if st == 'failed':
